@@ -224,5 +224,9 @@ func (iter *UnsavedFastIterator) Close() error {
 
 // Error implements store.Iterator
 func (iter *UnsavedFastIterator) Error() error {
-	return iter.err
+	if iter.err != nil {
+		return iter.err
+	}
+	// an error of the iterator over the persisted fast nodes ends that part early
+	return iter.fastIterator.Error()
 }
